@@ -311,9 +311,25 @@ def main(tier, only=None):
                      "MOSEK API semantics as read from the MOSEK manual (not installed here)"],
         bounds=dict(expression_atoms=8 if tier == 'quick' else 10, leaf_points=3, leaf_expressions=2,
                     models=len(mod), outside="larger expressions / models; what real cvxpy does after Problem(...)"))
+    # stand-ins vs the real libraries (own process: needs real cvxpy)
+    import json
+    import os
+    import subprocess
+    val = dict(ok=False, error="not run")
+    try:
+        pr = subprocess.run([runner.PY, "-W", "ignore", "-m", "vf.validate"], cwd=runner.VERIF, capture_output=True, text=True,
+                            timeout=900, env=dict(os.environ, PYTHONPATH=runner.VERIF + os.pathsep + runner.REPO))
+        val = json.loads(pr.stdout.strip().splitlines()[-1])
+    except Exception as ex:
+        val = dict(ok=False, error=str(ex)[:300])
+    common['extra_coverage'] = dict(standin_validation=val)
     pre = []
     if e2m:
         r = runner.collect("vf.props.c05", e2m, opts=dict(mode='reexec', max_paths=2000000))
         pre = r
-    return runner.run_property("C05", tier, "vf.props.c05", mod, opts=dict(mode='fork', max_paths=20000),
-                               pre_results=pre, **common)
+    rc = runner.run_property("C05", tier, "vf.props.c05", mod, opts=dict(mode='fork', max_paths=20000),
+                             pre_results=pre, **common)
+    if not val.get('ok') and not only:
+        print("HARNESS-ERROR: stand-in validation against real cvxpy failed: %s" % json.dumps(val)[:1500])
+        return max(rc, runner.EXIT_INCONCLUSIVE) if rc != runner.EXIT_VIOLATION else rc
+    return rc
